@@ -33,6 +33,21 @@ Proof.
     destruct (Z.ltb_spec heartbeat_threshold_ms t); lia.
 Qed.
 
+(* the announced timeout: the configured one truncated to tenths of a second *)
+Lemma announced_bounds t : 100 <= t -> 100 <= announced t <= t /\ announced t mod 100 = 0 /\ t - announced t < 100.
+Proof.
+  intros H. unfold announced. pose proof (Z.div_mod t 100 ltac:(lia)) as Hd.
+  pose proof (Z.mod_pos_bound t 100 ltac:(lia)) as Hm.
+  assert (Hq : 1 <= t / 100) by (apply Z.div_le_lower_bound; lia).
+  split; [nia|]. split; [apply Z.mod_mul; lia|nia].
+Qed.
+
+Lemma announced_pos t : 100 <= t -> 0 < announced t.
+Proof. intros H. pose proof (announced_bounds t H). lia. Qed.
+
+Lemma announced_multiple t : t mod 100 = 0 -> announced t = t.
+Proof. intros H. unfold announced. pose proof (Z.div_mod t 100 ltac:(lia)). lia. Qed.
+
 (* ------------------------------------------------------------------ invariants *)
 
 Record StrInv (s : st) : Prop := {
@@ -735,8 +750,8 @@ Proof.
   - destruct (conf s || bad_tmo t) eqn:E.
     + cbn. split; [reflexivity|]. split; [exact HSI0|exists a; reflexivity].
     + cbn. apply orb_false_iff in E. destruct E as [_ E]. unfold bad_tmo in E.
-      apply orb_false_iff in E. destruct E as [E _]. apply Z.ltb_ge in E.
-      split; [reflexivity|]. split; [apply si_set_conf; [exact HSI|lia]|exists a; reflexivity].
+      apply Z.ltb_ge in E.
+      split; [reflexivity|]. split; [apply si_set_conf; [exact HSI|apply announced_pos; exact E]|exists a; reflexivity].
   - apply call_ok. exact HSI0.
   - apply resume_ok. exact HSI0.
   - apply tick_ok. exact HSI0.
